@@ -504,6 +504,8 @@ class Interp:
                 break
             self.rig.advance(0.0837)
         self.rig.advance(2.0)
+        for _ in range(6):
+            self.rig.advance(0)     # an event posted by a timer at this very instant is dispatched in the next loop iterations
         self._log("END")
         return self.log
 
